@@ -33,7 +33,7 @@ HEADER = ('From Coq Require Import List Bool Arith ZArith QArith.\n'
           'Definition blocks_eqb (a : option (list block)) (b : option (list block)) : bool := option_eqb (list_eqb block_eqb) a b.\n'
           'Definition dblocks_eqb (a b : list block) : bool := list_eqb block_eqb a b.')
 
-DOMAINS = ['none', 'none', 'box', 'halfspace', 'ball', 'expcone', 'lifted', 'equality', 'eq_box', 'mixed']
+DOMAINS = ['none', 'none', 'box', 'halfspace', 'ball', 'expcone', 'lifted', 'equality', 'eq_box', 'mixed', 'intbox']
 
 
 class adversarial_globals:
@@ -72,6 +72,11 @@ def make_domain(rng, n, kind):
     if kind == 'box':
         A = np.vstack([np.eye(n), -np.eye(n)])
         b = np.array([1.0] * n + [2.0] * n)
+        K = [('+', 2 * n)]
+    elif kind == 'intbox':
+        # integer-typed A with a fractional b: x <= 1/2 + ..., stored exactly as the user gave it
+        A = np.vstack([np.eye(n), -np.eye(n)]).astype(int)
+        b = np.array([1.5] * n + [0.5] * n)
         K = [('+', 2 * n)]
     elif kind == 'negbox':
         # [-1, -1/2]^n : a box inside the negative orthant
